@@ -18,9 +18,9 @@ Definition of_interval (r : result (Z * parts)) : list Z :=
 
 Definition dispatch (fn : Z) (args : list Z) : list Z :=
   match fn, args with
-  | 1 (* py_dur *), s => of_obs (py_dur s)
+  | 1 (* py_dur *), s => of_obs (py_dur_c s)
   | 2 (* rs_raw *), s => of_raw (rs_raw s)
-  | 3 (* rs_dur *), s => of_obs (rs_dur s)
+  | 3 (* rs_dur *), s => of_obs (rs_dur_c s)
   | 4 (* spec *), w :: d :: h :: mi :: s :: unit_secs :: fs => [0; spec_num w d h mi s unit_secs fs; spec_den fs]
   | 5 (* py_interval *), s => of_interval (py_interval s)
   | 6 (* rs_interval *), s => of_interval (rs_interval s)
